@@ -317,6 +317,40 @@ def boundary_widths(N):
     return ws + [top - 1, top]
 
 
+# reduce64, the tie of the nearest-remainder choice `if r > v / 2` (v odd, r = (v - 1) / 2 = v / 2 exactly: the code keeps r;
+# the slip `r >= v / 2` takes v - r = r + 1 instead and returns another matrix, e.g. (1,-3,-2,7) -> (-1,4,-2,7) on the first pair).
+# Deterministic: ties at the first step (u = q v + (v-1)/2), just off the tie on both sides, even v with r = v/2, ties at the second step.
+REDUCE64_TIE_V = [(1 << 40) + 1, (1 << 25) + 1, (1 << 32) + 1, (1 << 33) + 1, (1 << 36) - 1, (1 << 48) + 1, (1 << 56) - 5, (1 << 62) + 1, (1 << 63) - 1,
+                  1099511627777 + 2 * 123456789, 0x9E3779B97F4A7C15 >> 1 | 1, 0x9E3779B97F4A7C15 >> 20 | 1]
+REDUCE64_TIE_Q = [1, 2, 3, 4, 5, 7, 8, 255, 256, (1 << 16) - 1, 1 << 16, (1 << 23) + 1, (1 << 30) - 1]
+
+
+def reduce64_tie_cases():
+    seen = set()
+
+    def mk(u, v):
+        if 0 <= u < W and 0 <= v < W and (u, v) not in seen:
+            seen.add((u, v))
+            yield Case(f"gcd_reduce64 {u} {v}", tag="tie")
+
+    yield from mk(3848290697219, 1099511627777)          # reviewer's pair: q = 3, r = 2^39 = (v - 1) / 2
+    for v in REDUCE64_TIE_V:
+        for q in REDUCE64_TIE_Q:
+            u = q * v + (v - 1) // 2
+            yield from mk(u, v)
+            yield from mk(v, u)                           # swapped first
+            if q in (1, 3, 256):
+                yield from mk(u + 1, v)                   # r = (v + 1) / 2 > v / 2: the other branch
+                yield from mk(u - 1, v)                   # r = (v - 3) / 2
+                yield from mk(q * (v + 1) + (v + 1) // 2, v + 1)      # even v, r = v / 2 exactly
+        # the tie at the second step: v = q2 r + (r - 1) / 2 with r odd, u = q v + r
+        for r in ((1 << 30) + 1, (1 << 26) - 1):
+            for q2 in (2, 5, 64):
+                vv = q2 * r + (r - 1) // 2
+                for q in (1, 2, 9):
+                    yield from mk(q * vv + r, vv)
+
+
 def boundary_cases(rng, tier):
     """deterministic word-boundary classes of the operand widths (both tiers, yielded first)"""
     j = 0
@@ -345,6 +379,7 @@ def boundary_cases(rng, tier):
             a = rng.choice([1 << 36, -(1 << 36), rng.getrandbits(36), -rng.getrandbits(36)])
             b = rng.choice([1 << 36, -(1 << 36), rng.getrandbits(36), -rng.getrandbits(36)])
             yield Case(f"gcd_dot {N} {sz} {a} {x} {b} {y}")
+    yield from reduce64_tie_cases()
     # ZmodN::inv / gcd: moduli of exactly these widths
     for w in boundary_widths(8):
         for rep in range(2):
